@@ -13,4 +13,4 @@ Extraction "extract/model.ml"
   tw_owner tw_disc tw_setnum tw_flag tw_setkey tw_del tw_clone tw_now mkWorld mkBinding
   PROG_MARGINFI PROG_SYSTEM PROG_TOKEN PROG_TOKEN22 PROG_KAMINO PROG_FARMS PROG_DRIFT PROG_SOLEND PROG_ATA
   PROG_STRANGER SYSVAR_INSTRUCTIONS SYSVAR_RENT
-  validate_bank_state weighted_asset_value_rule is_signer_authorized account_not_frozen_for_authority.
+  validate_bank_state weighted_asset_value_rule opstate_of_Z num_field acct_of is_signer_authorized account_not_frozen_for_authority.
